@@ -222,15 +222,29 @@ class DataMixin:
         lc = z3.If(l > n, n, l)
         uc = z3.If(u > n, n, u)
         uc = z3.If(uc < lc, lc, uc)
-        pre = ex.fresh('sl_pre', seq.sort())
-        mid = ex.fresh('sl_mid', seq.sort())
-        post = ex.fresh('sl_post', seq.sort())
-        ex.assume(seq == z3.Concat(pre, mid, post))
-        ex.assume(z3.Length(pre) == lc)
-        ex.assume(z3.Length(mid) == uc - lc)
+        pre, rest = self.take_drop(seq, lc)
+        mid, post = self.take_drop(rest, uc - lc)
         if seq.sort() == SeqVal:
-            self.fact_concat(seq, [pre, mid, post])
+            self.fact_concat(seq, [pre, rest])
+            self.fact_concat(rest, [mid, post])
         return pre, mid, post
+
+    def take_drop(self, seq, n):
+        """canonical prefix/suffix of a sequence at position n (0 <= n <= |seq| is the caller's duty):
+        uninterpreted functions with their defining equations instantiated here (no fresh variables, so two
+        decompositions of one sequence at one position are the same terms)"""
+        ex = self.ex
+        srt = seq.sort()
+        key = 'B' if srt == smt.Bytes else 'V'
+        tk = z3.Function(f'take_{key}', srt, smt.Int, srt)
+        dr = z3.Function(f'drop_{key}', srt, smt.Int, srt)
+        n = smt.simp(n)
+        a, b = tk(seq, n), dr(seq, n)
+        ex.assume(seq == z3.Concat(a, b))
+        ex.assume(z3.Length(a) == n)
+        ex.assume(z3.Implies(n == 0, b == seq))
+        ex.assume(z3.Implies(n == z3.Length(seq), a == seq))
+        return a, b
 
     def setitem(self, obj, idx, value, node):
         ex = self.ex
